@@ -269,8 +269,8 @@ var chkSerial = harness.Define("bad-crc-reply-serial-batch",
 	})
 
 func TestRandom(t *testing.T) {
-	chkCRC.Rapid(t, harness.Pick(1500, 10000))
-	chkSerial.Rapid(t, harness.Pick(4, 24))
+	chkCRC.Rapid(t, harness.Pick(1500, 30000))
+	chkSerial.Rapid(t, harness.Pick(4, 60))
 }
 
 // TestBitFlipSweep: every single-bit flip x {whole, every single cut} for one reply shape per function + exception replies (network RTU client).
